@@ -145,6 +145,15 @@ impl UdfContext {
         catalog: &Arc<FunctionCatalog>,
     ) -> Result<HashMap<String, Expr>> {
         let mut ret: HashMap<String, Expr> = HashMap::new();
+        if args.len() != catalog.arg_names.len() {
+            return Err(ErrorKind::InvalidExpression(format!(
+                "function {} takes {} argument(s), but {} given",
+                catalog.name,
+                catalog.arg_names.len(),
+                args.len()
+            ))
+            .into());
+        }
         for (i, current_arg) in args.iter().enumerate() {
             if let FunctionArg::Unnamed(_arg) = current_arg {
                 match current_arg {
